@@ -263,6 +263,25 @@ theorem f18w_witness :
     matchSt tables false true (.func a (tyAtom .int .star)) [] = .ok false := by
   decide +kernel
 
+/-- regression of the repair ec57e76 (maps against `function(K) as R`): the empty sequence of a missing key must match
+`R`; a typed function test `R = function(xs:int) as xs:int?` never admits `()` — the `?` at the end of its text is the
+inner return type's — so no map is an instance, not `map{}` and not a map whose every value is a function item of exactly
+that signature; the same values as members of an array are (an array has no missing member); with `R?` both are. -/
+theorem map_missing_key_regression :
+    let a : Tys := .cons (tyAtom .int .one) .nil
+    let R : Ty := .func a (tyAtom .int .opt)
+    let g : Item := .func a (tyAtom .int .opt)
+    let T : Ty := .func (.cons (tyAtom .integer .one) .nil) R
+    matchSt tables false true T [.map []] = .ok false ∧
+    matchSt tables false true T [.map [(tables.intCls, [g])]] = .ok false ∧
+    instanceOf tables false T [.map [(tables.intCls, [g])]] = .ok false ∧
+    matchSt tables false true T [.array [[g], [g]]] = .ok true ∧
+    matchSt tables false true (.func (.cons (tyAtom .integer .one) .nil) (.array (tyAtom .integer .opt) .opt))
+      [.map [(tables.intCls, [.array [[.atom tables.intCls]]])]] = .ok true ∧
+    matchSt tables false true (.func (.cons (tyAtom .integer .one) .nil) (.array (tyAtom .int .opt) .one))
+      [.map []] = .ok false := by
+  decide +kernel
+
 /-- non-vacuity: the tables are not empty -/
 example : atomNames.length = 47 ∧ 40 < clsNames.length ∧ 100 < signatures.length := by decide +kernel
 
